@@ -281,3 +281,23 @@ def d3_cases(refname, tx, cfg, lo, hi, w=6):
                         for c in C:
                             out.append(Case(refname, small=(a, b, c), cfg=cfg))
     return out
+
+
+def mnv3_cases(refname, tx, cfg, lo, hi, w=9):
+    """Two adjacent SNVs (merged into an MNV by the caller when --max-adjacent-as-mnv >= 2) at p, p+1 for p in
+    [lo, hi), plus every third elementary variant (reduced alphabet) starting within w nt on either side."""
+    ref = panel.get(refname)
+    L = ref.tx_len(tx)
+    out = []
+    for p in range(lo, min(hi, L - 1)):
+        A = [v for v in small_alphabet(ref, tx, p, True) if v.id().startswith('SNV')]
+        B = [v for v in small_alphabet(ref, tx, p + 1, True) if v.id().startswith('SNV')]
+        for q in list(range(max(0, p - w), p)) + list(range(p + 2, min(L, p + 2 + w))):
+            for c in small_alphabet(ref, tx, q, True):
+                if c.end > p and c.start < p + 2 and q < p:
+                    continue                     # a deletion reaching into the pair: overlapping, not a third record
+                for a in A:
+                    for b in B:
+                        trip = tuple(sorted((a, b, c), key=lambda v: (v.start, v.end)))
+                        out.append(Case(refname, small=trip, cfg=cfg))
+    return out
